@@ -83,6 +83,7 @@ class Cfg:
         self.rank_ids = "dense"    # rank numbering: 0..n-1, 1..n, with gaps, or large numbers
         self.pad_ids = 0           # that many metadata entries right after the first event: event ids beyond int16
         self.long_idle = False     # one early host operator, everything else more than 2^31 us later
+        self.annotation_rate = 0.08   # how often an operator of the tree is a user annotation instead
         self.stream_zero = False   # one of the streams is stream 0 (the null stream, as ROCm / Triton traces report it)
         self.deep_queue = 0        # that many launches enqueued on one stream before its first kernel starts
         self.__dict__.update(kw)
@@ -335,7 +336,7 @@ class RankSim:
             return self.event_op(t, tid, streams)
         name = rng.choice(vocab)
         cat = "cpu_op"
-        if rng.random() < 0.08:
+        if rng.random() < self.cfg.annotation_rate:
             name, cat = rng.choice(ANNOTATIONS[2:]), "user_annotation"
         e = self.x(cat, name, self.host_pid, tid, t, 0,
                    {"External id": self.next_corr(), "Sequence number": rng.randint(0, 50)}
